@@ -10,7 +10,7 @@ HARNESSES = [dict(name="c09", src="harness/c09.cpp", repo_srcs=["rkcommon/utilit
 # payload type -> (sizeof, log2 alignof) as the harness asserts them (x86-64 SysV, libstdc++)
 TYPES = {"int": (4, 2), "flt": (4, 2), "dbl": (8, 3), "str": (32, 3), "vec": (24, 3), "big": (64, 5), "trk": (8, 3)}
 ENV_TYPES = ("int", "flt", "str")
-ATAGS = ["int", "float", "string", "long", "noeq", "trk"]
+ATAGS = ["int", "float", "string", "long", "noeq", "trk", "key"]
 
 RULE = ("random operation histories over three Optional<T> wrappers (one of them placed directly behind a char member) and two "
         "Optional<U> wrappers (U convertible to T) for T in int, float, double, std::string, std::vector<int>, a 32-byte-aligned "
@@ -33,7 +33,7 @@ EXPLAIN = ("observations of the real Optional/Any (has_value/valid flags of ever
            "storage alignment, sanitizer aborts) differ from the Lean model for which optional_refines, optional_lifetime, "
            "optional_aligned, any_refines, any_typed_get and any_total are proved")
 
-MUT_OPS = {"new", "newv", "mk", "newc", "newm", "newcu", "newmu", "del", "asv", "asvr", "asvu", "asc", "asm", "ascu", "asmu",
+MUT_OPS = {"asown", "new", "newv", "mk", "newc", "newm", "newcu", "newmu", "del", "asv", "asvr", "asvu", "asc", "asm", "ascu", "asmu",
            "emp", "rst", "env_get", "anew", "anewv", "acopy", "adel", "aasg", "aasv", "amut"}
 SRC_OPS = {"newc", "newm", "newcu", "newmu", "asc", "asm", "ascu", "asmu", "acopy", "aasg"}
 
@@ -113,7 +113,8 @@ def _opt_case(rng, t, length):
             i = pick(T)
             others = [s for s in T if s != i]
             q = rng.random()
-            if q < 0.10: c.append("asv %d %d" % (i, k))
+            if q < 0.07: c.append("asv %d %d" % (i, k))
+            elif q < 0.10: c.append("asown %d" % i)
             elif q < 0.17: c.append("asvr %d %d" % (i, k))
             elif q < 0.24: c.append("asvu %d %d" % (i, k))
             elif q < 0.44: c.append("asc %d %d" % (i, pick(T)))
@@ -152,9 +153,14 @@ def _any_case(rng, length):
             return rng.pick(good)
         return rng.pick(S)
 
+    only_key = rng.chance(0.15)   # histories over the payload whose operator== is coarser than identity
     for _ in range(length):
         k = rng.randrange(4)
         t = rng.pick(ATAGS[:3]) if rng.chance(0.5) else rng.pick(ATAGS)
+        if only_key and not rng.chance(0.1):
+            t = "key"
+        if t == "key":
+            k = rng.randrange(8)   # tokens 4a+b: equal (operator==) iff same a, identical iff same token
         r = rng.random()
         if sum(present) == 0 or r < 0.18:
             i = pick(False) if rng.chance(0.8) else rng.pick(S)
